@@ -3,19 +3,23 @@
   Request encoding = the `coll` op of Drv/C12.lean (same ops, same `@k` references, same
   `__foreign:<tag>`); answer in the same format.  Difference: the script-implemented commands
   listed in `fromSource` are executed by `ScriptRun.runScriptCmd` - `AliasCommand::run` over the
-  parse of the regenerated `script.ds` - instead of their specified function.  (`fromSource`: the four
-  loop-free scripts of the theorems C12_script_*_correct and set_from_array, array_concat,
-  map_contains_value, whose for-in / if bodies the model runs too.  array_contains and array_join
-  - calc, strlen, substring are not modelled inside bodies - still answer with their specified
-  function; the harness stream `srun` does not generate them.)
+  parse of the regenerated `script.ds` - instead of their specified function.  (`fromSource`: all
+  nine collection scripts: the four loop-free ones of the theorems C12_script_*_correct and
+  set_from_array, array_concat, map_contains_value, array_contains, array_join, whose for-in / if
+  bodies - and calc / strlen / substring / is_empty inside them - the model runs too.)
 
   Running from source allocates the temporary `::arguments` array, so the model's counter no
   longer numbers the handles the way the harness renames the real ones (order of first appearance
   in an output).  The handler therefore renames too: a model handle is registered when it first
   occurs, live, in an output, and every output / table key / stored string is printed with the
   registered handles replaced by `handle:<rank>`.  A live handle that never appeared in an output
-  is printed as `LEAKED-HANDLE:<value>` (as the harness does).  Variables: every command is run
-  from an empty variable map; anything left in it is reported as ` LEAKED-VARIABLES`.
+  is printed as `LEAKED-HANDLE:<value>` (as the harness does).  Variables: the handler keeps the
+  variable map the harness keeps in the real `Context` - `a<k>_<j>` = the j-th literal argument of
+  operation k, `o<k>` = its output (removed after `Continue(None)`, `false` after an error) -
+  because a script body can READ them: `if not is_empty <separator>` of array_join re-parses the
+  separator as script text, so a separator `%{o0}` or `${a0_0}` is expanded against the caller's
+  variables.  A source-run command that changes the NUMBER of variables is reported as
+  ` LEAKED-VARIABLES` (the harness counts them too).
 -/
 import DuckModel.Drv.C12
 import DuckModel.Sdk.ScriptRun
@@ -31,6 +35,8 @@ def nameOfCmd : CollCmd → Option String
   | .setFromArray => some "set_from_array"
   | .arrayConcat => some "array_concat"
   | .mapContainsValue => some "map_contains_value"
+  | .arrayContains => some "array_contains"
+  | .arrayJoin => some "array_join"
   | _ => none
 
 /-- the script commands run from source -/
@@ -98,6 +104,8 @@ structure Run where
   leakedVars : Bool := false
   /-- keys the embedder chose itself (`__foreignlist`): printed as they are -/
   custom : List Str := []
+  /-- the caller's variables (`a<k>_<j>`, `o<k>`) -/
+  vars : Vars := []
 
 def pushVal (r : Run) (st : ScriptSt) (o : Option Str) : Run :=
   match o with
@@ -106,7 +114,24 @@ def pushVal (r : Run) (st : ScriptSt) (o : Option Str) : Run :=
     { r with st := st, raw := r.raw.push (.val (some v)), outs := r.outs.push (encStr (rename names v)), names := names }
   | none => { r with st := st, raw := r.raw.push (.val none), outs := r.outs.push "-" }
 
-def step (r : Run) : DOp → Run
+def outVar (k : Nat) : Str := 'o' :: (toString k).toList
+def argVar (k j : Nat) : Str := 'a' :: (toString k).toList ++ '_' :: (toString j).toList
+
+/-- the literal arguments of operation `k` as the harness stores them before the call -/
+def bindArgs (k : Nat) : Nat → List Arg → Vars → Vars
+  | _, [], vars => vars
+  | j, .lit v :: rest, vars => bindArgs k (j + 1) rest (vars.set (argVar k j) v)
+  | j, .ref _ :: rest, vars => bindArgs k (j + 1) rest vars
+
+/-- the output variable of operation `k` after the call -/
+def bindOut (k : Nat) (out : String) (raw : Option Res) (vars : Vars) : Vars :=
+  match raw with
+  | some (.val (some v)) => vars.set (outVar k) v
+  | some (.val none) => vars.erase (outVar k)
+  | some .err => if out == "?" then vars else vars.set (outVar k) sFalse
+  | none => vars
+
+def stepCore (r : Run) : DOp → Run
   | .foreign tag =>
     let (c', h) := putHandle r.st.coll (.other tag)
     pushVal r { r.st with coll := c' } (some h)
@@ -115,10 +140,11 @@ def step (r : Run) : DOp → Run
     { r with st := st', raw := r.raw.push (.val (some key)), outs := r.outs.push (encStr key), custom := key :: r.custom }
   | .cmd c a =>
     let args := a.map (resolve r.raw)
+    let r := { r with vars := bindArgs r.raw.size 0 a r.vars }
     match fromSource c with
     | some name =>
-      let (res, vars', st') := runScriptCmd name args [] r.st
-      let r := { r with leakedVars := r.leakedVars || !vars'.isEmpty }
+      let (res, vars', st') := runScriptCmd name args r.vars r.st
+      let r := { r with leakedVars := r.leakedVars || vars'.length != r.vars.length, vars := vars' }
       match res with
       | .continue o => pushVal r st' o
       | .error _ => { r with st := st', raw := r.raw.push .err, outs := r.outs.push "E" }
@@ -129,6 +155,11 @@ def step (r : Run) : DOp → Run
       match res with
       | .val o => pushVal r { r.st with coll := c' } o
       | .err => { r with st := { r.st with coll := c' }, raw := r.raw.push .err, outs := r.outs.push "E" }
+
+def step (r : Run) (op : DOp) : Run :=
+  let k := r.raw.size
+  let r' := stepCore r op
+  { r' with vars := bindOut k (r'.outs[k]?.getD "") r'.raw[k]? r'.vars }
 
 def encItemR (names : List Str) : Item → String
   | .str s => encStr (rename names s)
